@@ -234,7 +234,9 @@ class _EmbeddingMeta(type):
             except Exception:  # noqa: BLE001  (arguments the constructor refuses: the real call below refuses them too)
                 pass
             if n % 40 == 0:
-                _gc.collect()
+                # (the youngest generation only - that is where a decoder dropped a moment ago lives; a full collection of a
+                # large heap costs 0.2 s and is done a few times per process only)
+                _gc.collect(0 if HOSTILE_STATS["garbage_collections_forced"] >= 8 else 2)
                 HOSTILE_STATS["garbage_collections_forced"] += 1
             try:
                 a2, k2 = _copy.deepcopy((a, k))
@@ -252,7 +254,7 @@ class _EmbeddingMeta(type):
                     late.close()
                     del late
                     if n % 120 == 0:
-                        _gc.collect()
+                        _gc.collect(0)
                     HOSTILE_STATS["siblings_built_from_the_same_argument_objects"] += 1
                 except Exception:  # noqa: BLE001
                     pass
